@@ -182,6 +182,7 @@ def run(model: RepoModel, rep, tier: str):
                        "side and the argument side are not crossed, and the resolver that refreshes states to their newest versions writes the "
                        "refreshed field/element maps into the copy it creates, never into the state it copied from", 6)
     check_side_pairing(model, rep, "C08.R9", ["core/stmt_states.py", "core/global_stmt_states.py", "core/resolver.py"])
+    _r9_widening_keeps_children(model, rep)
     check_copy_on_write(model, rep, "C08.R9", [c for c in model.module("core/resolver.py").classes.values() if c.name == "Resolver"])
     from ..generic import check_accumulators
 
@@ -312,6 +313,41 @@ def check_regex_escape(model: RepoModel, rep, RID: str, only=None):
     rep.analysed[f"regex call sites ({RID})"] = n_re
     return n_re
 
+
+
+def _r9_widening_keeps_children(model: RepoModel, rep):
+    """Flattening a state ("tangping") replaces its field and element maps by one bag of children.  The maps are emptied, so on every
+    path to the point where a map is emptied its contents must have been moved into the bag -- whatever flags the caller set before."""
+    SS_ = "core/stmt_states.py"
+    st = model.module(SS_).classes.get("StmtStates")
+    f = st.methods.get("make_state_tangping") if st else None
+    if f is None or len(f.params) < 2:
+        raise AnalysisError("StmtStates.make_state_tangping vanished")
+    P = f.params[1]
+    cfg = cfg_of(f.node)
+    n = 0
+    for attr in ("array", "fields"):
+        clears = [nd for nd in cfg.g.nodes if cfg.kind[nd] == "stmt" and isinstance(cfg.stmt[nd], ast.Assign) and any(
+            isinstance(t, ast.Attribute) and t.attr == attr and isinstance(t.value, ast.Name) and t.value.id == P for t in cfg.stmt[nd].targets)]
+        folds = [nd for nd in cfg.g.nodes if cfg.kind[nd] == "iter" and any(isinstance(x, ast.Attribute) and x.attr == attr and isinstance(x.value, ast.Name)
+                                                                           and x.value.id == P for x in ast.walk(cfg.stmt[nd].iter))
+                 and any(isinstance(c, ast.Call) and isinstance(c.func, ast.Attribute) and c.func.attr in ("update", "add") and "tangping_elements" in norm(c.func.value)
+                         for c in ast.walk(cfg.stmt[nd]))]
+        key = f"{SS_}::StmtStates.make_state_tangping::`{P}.{attr}` is moved into the bag before it is emptied"
+        if not clears:
+            continue
+        n += 1
+        bad = next((p_ for cl in clears for p_ in [cfg.path_avoiding(cfg.ENTRY, cl, set(folds))] if p_ is not None), None)
+        if bad is None and folds:
+            rep.holds("C08.R9", key, SS_, cfg.stmt[clears[0]].lineno, f"every path to `{norm(cfg.stmt[clears[0]])}` passes the loop that moves the children")
+        else:
+            rep.violation("C08.R9", key, SS_, cfg.stmt[clears[0]].lineno,
+                          f"`{norm(cfg.stmt[clears[0]])}` can be reached without the children of `{P}.{attr}` having been moved into tangping_elements "
+                          f"({' -> '.join(cfg.describe_path(bad)[-6:]) if bad else 'no loop moves them'}): callers that mark the state as flattened before "
+                          f"calling (the merge of two versions of an object at a join) lose every field value -- a read of that field after the join "
+                          f"no longer covers what was written")
+    if not n:
+        raise AnalysisError("make_state_tangping no longer empties the array / fields maps")
 
 
 def _r8_value_plumbing(model: RepoModel, rep):
